@@ -12,6 +12,10 @@
 #include <booster/posix_time.h>
 #include <booster/system_error.h>
 #include <cppcms/thread_pool.h>
+#include <booster/aio/acceptor.h>
+#include <booster/aio/endpoint.h>
+#include <netinet/in.h>
+#include <arpa/inet.h>
 #include <thread>
 #include <memory>
 #include <sys/socket.h>
@@ -27,11 +31,11 @@ using booster::ptime;
 struct HRec {
 	std::string kind; int count = 0; int thread = -2; int64_t t_us = 0; int code = 0; std::string cat; size_t n = 0;
 	int64_t deadline_us = -1; int fd = -1; int dir = 0; uint64_t armed_seq = 0; size_t readable_at_call = 0; bool posted_after_stop = false; bool cancel_ok = false; bool threw = false;
-	size_t want = 0; std::string data; int life = 1; bool aba = false; int64_t t_cancel_us = -1; bool must_cancel = false, in_call = false, ran_in_call = false;   /* must_cancel: cancel() was called while this timer wait was pending and not yet due */   // aba: wait on a descriptor whose number was re-used while the cancel of the previous device was still deferred (known finding)
+	size_t want = 0; std::string data; int life = 1; bool aba = false; int64_t t_cancel_us = -1; bool must_cancel = false, in_call = false, ran_in_call = false, closed_dev = false;   /* must_cancel: cancel() was called while this timer wait was pending and not yet due */   // aba: wait on a descriptor whose number was re-used while the cancel of the previous device was still deferred (known finding)
 };
 struct World {
 	std::vector<HRec> h; int live_functors = 0; int loop_thread = -1, loop_thread2 = -1; bool stop_called = false; bool pair_starved = false; int pair_waits = 0; int loop_restarts = 0;
-	int dev_cycles = 0, dev_reused = 0, dev_stale = 0, dev_attached = 0; std::map<int,int> stale_fd;   /* descriptor number -> handler of the device closed by a non-loop thread whose cancel the loop may not have applied yet */ std::map<std::pair<int,int>,bool> armed; std::set<int> xcancelled_fds; std::vector<std::pair<int,uint64_t>> xcancels; uint64_t evseq = 0;
+	int dev_cycles = 0, dev_reused = 0, dev_stale = 0, dev_attached = 0, burst_timers = 0; std::string dup_timer_id; std::map<int,int> stale_fd;   /* descriptor number -> handler of the device closed by a non-loop thread whose cancel the loop may not have applied yet */ std::map<std::pair<int,int>,bool> armed; std::set<int> xcancelled_fds; std::vector<std::pair<int,uint64_t>> xcancels; uint64_t evseq = 0;
 	int add(const std::string &k){ simk::TsanIgnore ign; h.emplace_back(); h.back().kind = k; return (int)h.size()-1; }
 };
 World *W = nullptr;
@@ -99,6 +103,7 @@ struct E6 : Engine {
 				else if(x < 90 && npairs){ o["op"] = "ready"; o["p"] = (int)r.below(npairs); o["n"] = 1 + (int)r.below(50); }
 				else if(x < 93){ o["op"] = "sleep"; o["ms"] = (int)r.below(25); }
 				else if(x < 97){ o["op"] = "dev"; o["early"] = (int)r.below(3); o["dir2"] = (int)r.below(2); o["gap"] = (int)r.below(3); o["settle"] = (int)(r.below(3) != 0); o["xfer"] = r.below(2) ? (int)(1 + r.below(50)) : 0; o["attach"] = (int)(r.below(4) == 0); }   /* attach: the first device does not own its descriptor (attach()); close() must cancel its wait all the same, the descriptor is closed by the thread itself */   // a device owned by this thread: armed, closed by this thread, then a new device on the re-used descriptor number
+				else if(x == 99 && r.below(12) == 0){ o["op"] = "burst"; o["n"] = 700 + (int)r.below(700); o["keep"] = (int)r.below(3); }   /* hundreds of timers pending at once on one io_service (a busy server: one time-out per connection) */
 				else { o["op"] = "yield"; }
 				ops.push(o); }
 			th.push(ops); }
@@ -106,13 +111,18 @@ struct E6 : Engine {
 		// timers/chains armed from inside the loop thread through deadline_timer / stream_socket objects
 		J ch = J::arr(); int nch = r.below(3);
 		for(int i=0;i<nch;i++){ J c = J::obj(); unsigned x = r.below(3);
+			if(r.below(5) == 0){   /* connection set-up as a descriptor wait: an acceptor that keeps accepting while peers connect (and, now and then, finds the connection gone although the listening socket was reported readable), or a non-blocking connect that completes later */
+				if(r.below(2)){ c["kind"] = "accept"; c["times"] = 1 + (int)r.below(4); c["conns"] = (int)r.below(5); c["gap_ms"] = (int)r.below(8); c["cancel_after_ms"] = r.below(3) == 0 ? (int)r.below(30) : -1; c["close"] = (int)r.below(2); }
+				else { c["kind"] = "connect"; c["listen"] = (int)r.below(3); c["cancel_after_ms"] = r.below(4) == 0 ? (int)r.below(10) : -1; c["close"] = (int)r.below(2); }
+				ch.push(c); continue; }
 			if(x == 0 && r.below(2)){ c["kind"] = "ptimer"; c["ms"] = 1 + (int)r.below(12); c["times"] = 2 + (int)r.below(5); c["cancel_after_ms"] = r.below(4) ? (int)r.below(60) : -1; }   // periodic - the handler re-arms the same timer from inside, a cancel has to stop the wait pending at that moment
 			else if(x == 0){ c["kind"] = "dtimer"; c["ms"] = (int)r.below(30); c["cancel_after_ms"] = r.below(2) ? (int)r.below(40) : -1; }
 			else if(x == 1){ c["kind"] = "read"; c["want"] = 1 + (int)r.below(3000); c["feed"] = (int)r.below(4000); c["chunk"] = 1 + (int)r.below(700); c["close_peer"] = r.below(3) == 0; c["cancel_after_ms"] = r.below(3) == 0 ? (int)r.below(20) : -1; c["close"] = (int)r.below(2); }
 			else { c["kind"] = "write"; c["len"] = 1 + (int)r.below(20000); c["cap"] = 1 + (int)r.below(3000); c["drain"] = 1 + (int)r.below(2000); c["cancel_after_ms"] = r.below(4) == 0 ? (int)r.below(20) : -1; c["close"] = (int)r.below(2); }
 			ch.push(c); }
 		p["chains"] = ch;
-		p["p_short_read"] = r.below(2) ? (int)r.below(400) : 0; p["p_short_write"] = r.below(2) ? (int)r.below(400) : 0; p["p_spurious"] = r.below(4) == 0 ? (int)r.below(100) : 0;
+		p["p_inprogress"] = r.below(3) ? 700 : 0;
+		p["p_short_read"] = r.below(2) ? (int)r.below(400) : 0; p["p_short_write"] = r.below(2) ? (int)r.below(400) : 0; p["p_spurious"] = r.below(4) == 0 ? (int)r.below(100) : 0; { bool acc = false; for(auto &c:ch.a) if(c.gets("kind") == "accept") acc = true; if(acc && r.below(2)) p["p_spurious"] = 50 + (int)r.below(200); }
 		p["stop_race"] = r.below(5) == 0;
 		// a second life: after stop() (called by a foreign thread while the loop is idle) and reset() the service runs again and must serve other threads as before
 		if(!p.geti("stop_race") && r.below(4) == 0){ J l2 = J::arr(); int n = 1 + r.below(5); for(int i=0;i<n;i++){ J o = J::obj(); unsigned x = r.below(10); if(x < 4) o["op"] = "post"; else if(x < 7){ o["op"] = "timer"; o["ms"] = (int)r.below(15); } else if(x < 9 && npairs){ o["op"] = "io"; o["p"] = (int)r.below(npairs); } else { o["op"] = "sleep"; o["ms"] = 1 + (int)r.below(10); } l2.push(o); } p["life2"] = l2; p["life2_idle_ms"] = (int)r.below(3) * 5; }
@@ -165,7 +175,7 @@ struct E6 : Engine {
 	}
 
 	// ---------------------------------------------------------------- event loop
-	struct Chain { int period_ms = 0, times_left = 0, cur_hid = -1; bool close_instead = false, closed = false; std::string kind; std::unique_ptr<aio::stream_socket> sock; std::unique_ptr<aio::deadline_timer> timer, canceler; int hid = -1; int peer = -1; std::string buf; std::string sent; size_t fed = 0, feed = 0, chunk = 1, drain = 1; bool close_peer = false; std::string drained; int cancel_after = -1; bool peer_closed = false; };
+	struct Chain { std::unique_ptr<aio::acceptor> acc; std::vector<std::unique_ptr<aio::stream_socket>> accepted; std::vector<int> acc_hids; int port = 0, conns = 0, conns_made = 0, conn_gap_ms = 0, lfd = -1, listen_mode = 0, got = 0; bool acc_closed = false; /* accept / connect chains */ int period_ms = 0, times_left = 0, cur_hid = -1; bool close_instead = false, closed = false; std::string kind; std::unique_ptr<aio::stream_socket> sock; std::unique_ptr<aio::deadline_timer> timer, canceler; int hid = -1; int peer = -1; std::string buf; std::string sent; size_t fed = 0, feed = 0, chunk = 1, drain = 1; bool close_peer = false; std::string drained; int cancel_after = -1; bool peer_closed = false; };
 
 	void run_loop(const J &plan,RunResult &res,World &w){
 		int rt = (int)(((plan.geti("reactor") % 3) + 3) % 3); int reactor_type = rt == 0 ? aio::reactor::use_epoll : rt == 1 ? aio::reactor::use_poll : aio::reactor::use_select;
@@ -174,7 +184,7 @@ struct E6 : Engine {
 		std::vector<std::pair<int,int>> pairs;
 		const J &th = plan.get("threads"); size_t nt = std::min<size_t>(th.size(),8);
 		const J &chs = plan.get("chains");
-		std::vector<std::unique_ptr<Chain>> chains;
+		std::vector<std::unique_ptr<Chain>> chains; bool env_exhausted = false;
 		{
 			aio::io_service srv(reactor_type);
 			for(int i=0;i<npairs;i++){ int sv[2]; socketpair(AF_UNIX,SOCK_STREAM,0,sv); fcntl(sv[0],F_SETFL,O_NONBLOCK); fcntl(sv[1],F_SETFL,O_NONBLOCK); pairs.push_back({sv[0],sv[1]}); }
@@ -209,6 +219,22 @@ struct E6 : Engine {
 							if(cp->cur_hid >= 0 && wp->h[cp->cur_hid].count == 0 && wp->h[cp->cur_hid].deadline_us > simk::now_us()) wp->h[cp->cur_hid].must_cancel = true;
 							cp->timer->cancel(); }); } });
 				}
+				else if(ch->kind == "accept"){
+					ch->port = 7300 + (int)i; ch->times_left = (int)std::max<int64_t>(1,std::min<int64_t>(c.geti("times",1),6)); ch->conns = (int)std::max<int64_t>(0,std::min<int64_t>(c.geti("conns"),8)); ch->conn_gap_ms = (int)std::max<int64_t>(0,std::min<int64_t>(c.geti("gap_ms"),100)); ch->hid = -1;
+					// every async_accept gets its own handler record and its own target socket; a successful handler arms the next accept from inside itself
+					struct Rearm { static void arm(Chain *cp,World *w,aio::io_service *sp){ int h = w->add("aaccept"); cp->acc_hids.push_back(h); cp->cur_hid = h; cp->accepted.emplace_back(new aio::stream_socket(*sp)); aio::stream_socket *target = cp->accepted.back().get();
+						Fn fn(h); cp->acc->async_accept(*target,[cp,w,sp,fn,target,h](booster::system::error_code const &e){ { simk::TsanIgnore ign; w->h[h].want = (!e && target->native() >= 0) ? 1 : 0; w->h[h].closed_dev = cp->acc_closed; if(!e) cp->got++; } fn(e); if(!e && --cp->times_left > 0 && !cp->acc_closed) arm(cp,w,sp); }); } };
+					World *wp = &w; aio::io_service *sp = &srv;
+					srv.post([sp,wp,cp]{ cp->acc.reset(new aio::acceptor(*sp)); cp->acc->open(aio::pf_inet); cp->acc->set_option(aio::basic_socket::reuse_address,true); cp->acc->bind(aio::endpoint("127.0.0.1",cp->port)); cp->acc->listen(10); Rearm::arm(cp,wp,sp);
+						if(cp->cancel_after >= 0){ cp->canceler.reset(new aio::deadline_timer(*sp)); cp->canceler->expires_from_now(ptime::milliseconds(cp->cancel_after)); cp->canceler->async_wait([cp](booster::system::error_code const &){ if(cp->close_instead){ booster::system::error_code e; cp->acc_closed = true; cp->acc->close(e); } else cp->acc->cancel(); }); } });
+				}
+				else if(ch->kind == "connect"){
+					ch->port = 7400 + (int)i; ch->listen_mode = (int)(((c.geti("listen") % 3) + 3) % 3); ch->hid = w.add("aconnect");
+					if(ch->listen_mode){ int lfd = ::socket(AF_INET,SOCK_STREAM,0); struct sockaddr_in sa; memset(&sa,0,sizeof(sa)); sa.sin_family = AF_INET; sa.sin_port = htons((uint16_t)ch->port); sa.sin_addr.s_addr = htonl(0x7f000001); ::bind(lfd,(struct sockaddr*)&sa,sizeof(sa)); ::listen(lfd,5); fcntl(lfd,F_SETFL,O_NONBLOCK); ch->lfd = lfd; }
+					aio::io_service *sp = &srv;
+					srv.post([sp,cp]{ cp->sock.reset(new aio::stream_socket(*sp)); cp->sock->open(aio::pf_inet); cp->sock->set_non_blocking(true); cp->sock->async_connect(aio::endpoint("127.0.0.1",cp->port),Fn(cp->hid));
+						if(cp->cancel_after >= 0){ cp->canceler.reset(new aio::deadline_timer(*sp)); cp->canceler->expires_from_now(ptime::milliseconds(cp->cancel_after)); cp->canceler->async_wait([cp](booster::system::error_code const &){ if(cp->close_instead){ booster::system::error_code e; cp->sock->close(e); cp->closed = true; } else cp->sock->cancel(); }); } });
+				}
 				else if(ch->kind == "read" || ch->kind == "write"){
 					int sv[2]; socketpair(AF_UNIX,SOCK_STREAM,0,sv); fcntl(sv[1],F_SETFL,O_NONBLOCK); ch->peer = sv[1];
 					ch->sock.reset(new aio::stream_socket(srv)); ch->sock->assign(sv[0]); ch->sock->set_non_blocking(true);
@@ -223,8 +249,19 @@ struct E6 : Engine {
 				chains.push_back(std::move(ch));
 			}
 			// the peer side of the chains is an environment thread feeding / draining in pieces
+			struct ConnCompleter : simk::Actor { bool enabled() override { return simk::connecting_count() > 0; } void step() override { simk::complete_connect(simk::fault_rng().next()); } const char *name() override { return "connect-completer"; } } completer;
+			simk::add_actor(&completer); struct ActorGuard { ~ActorGuard(){ simk::clear_actors(); } } actor_guard;
+			std::vector<int> env_conns;
 			std::thread env([&]{
 				for(int round=0;round<4000;round++){ bool active = false;
+					for(auto &ch:chains){
+						if(ch->kind == "accept"){   /* peers connect to the acceptor, one every gap rounds */
+							if(ch->conns_made < ch->conns && ch->port && round % (ch->conn_gap_ms + 1) == 0 && round < 1500){ int fd = ::socket(AF_INET,SOCK_STREAM,0); struct sockaddr_in sa; memset(&sa,0,sizeof(sa)); sa.sin_family = AF_INET; sa.sin_port = htons((uint16_t)ch->port); sa.sin_addr.s_addr = htonl(0x7f000001);
+								if(::connect(fd,(struct sockaddr*)&sa,sizeof(sa)) == 0){ simk::TsanIgnore ign; ch->conns_made++; env_conns.push_back(fd); } else ::close(fd); }
+							if(ch->conns_made < ch->conns && round < 1500) active = true;
+							{ simk::TsanIgnore ign; if(ch->cancel_after < 0 && ch->got < std::min(ch->times_left + ch->got,ch->conns_made)) active = true; } }
+						if(ch->kind == "connect" && ch->listen_mode == 2 && ch->lfd >= 0){ int fd = ::accept(ch->lfd,nullptr,nullptr); if(fd >= 0) env_conns.push_back(fd); if(W->h[ch->hid].count == 0) active = true; } }
+					if(round == 3999) env_exhausted = true;
 					for(auto &ch:chains){ if(ch->peer < 0 || ch->peer_closed) continue; HRec &hr = w.h[ch->hid];
 						if(ch->kind == "read"){ if(ch->fed < ch->feed){ size_t k = std::min(ch->chunk,ch->feed - ch->fed); std::string piece(k,'\0'); for(size_t j=0;j<k;j++) piece[j] = (char)(((ch->fed+j)*7+3) & 0xff); ssize_t n = ::write(ch->peer,piece.data(),k); if(n > 0){ ch->sent.append(piece.data(),n); ch->fed += n; } active = true; }
 							else if(ch->close_peer){ ::close(ch->peer); ch->peer_closed = true; } }
@@ -237,6 +274,19 @@ struct E6 : Engine {
 					if(op == "post"){ int h = w.add("post"); w.h[h].posted_after_stop = w.stop_called; if(o.geti("throws")) srv.post(ThrowingFn(h)); else srv.post(Fn(h)); }
 					else if(op == "timer"){ int h = w.add("timer"); int64_t ms = std::max<int64_t>(-1000,std::min<int64_t>(o.geti("ms"),100000)); w.h[h].posted_after_stop = w.stop_called; w.h[h].deadline_us = simk::now_us() + ms*1000;
 						ptime at = ptime(w.h[h].deadline_us/1000000,(int)((w.h[h].deadline_us%1000000)*1000)); int id = srv.set_timer_event(at,Fn(h)); tids.push_back(id); thids.push_back(h); }
+					else if(op == "burst"){   /* many timers pending at once: every one gets an id of its own, and cancelling an id completes that wait and no other */
+						int n = (int)std::max<int64_t>(1,std::min<int64_t>(o.geti("n"),1600)); std::vector<int> ids,hids; std::set<int> seen; int64_t base = simk::now_us() + 3600LL*1000000;
+						{ simk::TsanIgnore ign; if(w.h.size() + (size_t)n + 200 > w.h.capacity()) n = 0; }
+						for(int k=0;k<n;k++){ int h = w.add("timer"); w.h[h].posted_after_stop = w.stop_called; w.h[h].deadline_us = base + k*1000; ptime at = ptime(w.h[h].deadline_us/1000000,(int)((w.h[h].deadline_us%1000000)*1000)); int id = srv.set_timer_event(at,Fn(h));
+							if(!seen.insert(id).second){ simk::TsanIgnore ign; if(w.dup_timer_id.empty()) w.dup_timer_id = "set_timer_event() returned id " + std::to_string(id) + " for timer#" + std::to_string(h) + " while another pending timer of the same burst (" + std::to_string(k) + " armed so far, none due for an hour) holds that id"; }
+							ids.push_back(id); hids.push_back(h); }
+						{ simk::TsanIgnore ign; w.burst_timers += n; }
+						int keep = (int)o.geti("keep");   /* 0: cancel all, in order; 1: cancel all, last first; 2: cancel every other one, the rest is cancelled as well once those were seen to complete */
+						auto cancel = [&](int k){ if(w.h[hids[k]].count == 0){ srv.cancel_timer_event(ids[k]); simk::TsanIgnore ign; w.h[hids[k]].t_cancel_us = simk::now_us(); } };
+						if(keep == 1) for(int k=n-1;k>=0;k--) cancel(k); else for(int k=0;k<n;k += (keep == 2 ? 2 : 1)) cancel(k);
+						if(keep == 2){ simk::block([&]{ for(int k=0;k<n;k+=2) if(!w.h[hids[k]].count) return false; return true; },simk::now_us()+20LL*1000000,"burst-half");
+							for(int k=1;k<n;k+=2) if(w.h[hids[k]].count && w.h[hids[k]].code != 0){ simk::TsanIgnore ign; if(w.dup_timer_id.empty()) w.dup_timer_id = "timer#" + std::to_string(hids[k]) + " was completed with an error although only other timers had been cancelled"; }
+							for(int k=1;k<n;k+=2) cancel(k); } }
 					else if(op == "cancel_timer"){
 						// documented contract: an id is cancelled at most once, and not after its handler was seen to run
 						if(!tids.empty()){ size_t k = (size_t)(o.geti("i") % (int64_t)tids.size()); if(tids[k] >= 0 && w.h[thids[k]].count == 0){ int id = tids[k]; tids[k] = -1; srv.cancel_timer_event(id); { simk::TsanIgnore ign; w.h[thids[k]].t_cancel_us = simk::now_us(); } } } }
@@ -290,12 +340,12 @@ struct E6 : Engine {
 			if(stop_race){ w.stop_called = true; srv.stop(); }
 			for(auto &t:thr) t.join();
 			if(!stop_race){
-				auto outstanding = [&](bool io_too){ std::string m; for(size_t i=0;i<w.h.size();i++){ HRec &r = w.h[i]; if(r.count) continue; if(!io_too && (r.kind == "io_in" || r.kind == "io_out" || r.kind == "aread" || r.kind == "awrite")) continue; m += " " + r.kind + "#" + std::to_string(i); } return m; };
+				auto outstanding = [&](bool io_too){ std::string m; for(size_t i=0;i<w.h.size();i++){ HRec &r = w.h[i]; if(r.count) continue; if(!io_too && (r.kind == "io_in" || r.kind == "io_out" || r.kind == "aread" || r.kind == "awrite" || r.kind == "aaccept")) continue; m += " " + r.kind + "#" + std::to_string(i); } return m; };
 				auto roundtrip = [&]{ int s = w.add("post"); srv.post(Fn(s)); return simk::block([&w,s]{ return w.h[s].count > 0; },simk::now_us()+2*3600LL*1000000,"wait-sentinel"); };
 				// posts and timers complete by themselves; descriptor waits and socket operations may need a cancel to end
 				{ bool aba_done = simk::block([&]{ for(auto &r:w.h) if(r.aba && !r.count) return false; return true; },simk::now_us()+120LL*1000000,"wait-aba-handlers");
 				  if(!aba_done){ std::string m; for(size_t i=0;i<w.h.size();i++) if(w.h[i].aba && !w.h[i].count) m += " " + w.h[i].kind + "#" + std::to_string(i); res.fail("reused-descriptor:handler-never-invoked","never invoked:" + m + " (descriptor number re-used while the cancel of the closed device was still deferred)","descriptor-reused-before-deferred-cancel"); } }
-				bool done = simk::block([&]{ for(auto &r:w.h){ if(r.count || r.aba) continue; if(r.kind == "io_in" || r.kind == "io_out" || r.kind == "aread" || r.kind == "awrite") continue; return false; } return true; },simk::now_us()+2*3600LL*1000000,"wait-handlers");
+				bool done = simk::block([&]{ for(auto &r:w.h){ if(r.count || r.aba) continue; if(r.kind == "io_in" || r.kind == "io_out" || r.kind == "aread" || r.kind == "awrite" || r.kind == "aaccept") continue; return false; } return true; },simk::now_us()+2*3600LL*1000000,"wait-handlers");   /* a connect in progress completes by itself - established or refused */
 				if(!done) res.fail("handler-never-invoked","loop kept running but these handlers were never invoked:" + outstanding(false));
 				env.join();
 				if(res.ok && !roundtrip()) res.fail("handler-never-invoked","a posted handler was never invoked by a running loop");
@@ -307,6 +357,7 @@ struct E6 : Engine {
 					bool all = true; for(auto &r:w.h) if(!r.count) all = false; if(all) break;
 					for(auto &pr:pairs){ int fd = pr.first; aio::io_service *sp = &srv; srv.post([sp,fd]{ sp->cancel_io_events(fd); }); }
 					for(auto &ch:chains) if(ch->sock){ Chain *cp = ch.get(); srv.post([cp]{ if(W->h[cp->hid].count == 0 && !cp->closed) cp->sock->cancel(); }); }
+					for(auto &ch:chains) if(ch->kind == "accept"){ Chain *cp = ch.get(); srv.post([cp]{ if(cp->acc && !cp->acc_closed) cp->acc->cancel(); }); }
 					if(!roundtrip()) res.fail("handler-never-invoked","a posted handler was never invoked by a running loop");
 					if(round == 1) res.counters["extra_cancel_rounds"] = res.counters.geti("extra_cancel_rounds") + 1;
 				}
@@ -331,9 +382,13 @@ struct E6 : Engine {
 				int64_t t_stop = simk::now_us(); w.stop_called = true; srv.stop(); loop2.join();
 				if(res.ok && simk::now_us() - t_stop > 30LL*1000000) res.fail("stop-not-noticed","second life: run() returned " + std::to_string((long)((simk::now_us() - t_stop)/1000000)) + " simulated seconds after stop() was called by another thread");
 				(void)first2; } }
-			for(auto &ch:chains){ ch->timer.reset(); ch->canceler.reset(); if(ch->sock){ booster::system::error_code e; ch->sock->close(e); } if(ch->peer >= 0 && !ch->peer_closed) ::close(ch->peer); }
+			for(auto &ch:chains){ ch->timer.reset(); ch->canceler.reset(); if(ch->sock){ booster::system::error_code e; ch->sock->close(e); } if(ch->peer >= 0 && !ch->peer_closed) ::close(ch->peer);
+				if(ch->acc){ booster::system::error_code e; ch->acc->close(e); } for(auto &a:ch->accepted){ booster::system::error_code e; a->close(e); } if(ch->lfd >= 0) ::close(ch->lfd); }
+			for(int fd:env_conns) ::close(fd);
 			for(auto &pr:pairs){ ::close(pr.first); ::close(pr.second); }
 		}
+		if(res.ok && !w.dup_timer_id.empty()) res.fail("timer-id-not-unique",w.dup_timer_id);
+		res.counters["burst_timers"] = w.burst_timers;
 		res.counters["run_restarted_after_handler_exception"] = w.loop_restarts; res.counters["dev_cycles"] = w.dev_cycles; res.counters["dev_descriptor_reused"] = w.dev_reused; res.counters["dev_cycles_on_stale_number"] = w.dev_stale; res.counters["dev_attached_devices"] = w.dev_attached;
 		int n_ok = 0, n_cancel = 0;
 		if(!stop_race) for(size_t i=0;i<w.h.size();i++){ HRec &r = w.h[i]; if(!r.aba) continue; std::string nm = r.kind + "#" + std::to_string(i); std::string bad;
@@ -355,9 +410,20 @@ struct E6 : Engine {
 			if(r.kind == "io_in" && r.code == 0 && r.readable_at_call == 0) res.fail("io-success-without-event",nm + " reported readable but nothing was there");
 			if((r.kind == "io_in" || r.kind == "io_out") && r.code != 0 && !canceled && !(r.cat == aio::aio_error_cat.name() && r.code == aio::aio_error::select_failed)) res.fail("unexpected-error-code",nm + " got error " + std::to_string(r.code) + "/" + r.cat);
 			if(r.kind == "post" && r.code != 0) res.fail("unexpected-error-code",nm + " got an error code");
+			if(r.kind == "aaccept"){ if(r.code == 0 && r.want == 0) res.fail("accept-success-without-connection",nm + ": async_accept completed successfully but the target socket holds no connection");
+				if(r.code != 0 && !canceled && !r.closed_dev /* the acceptor was closed while this wait was pending: any error code is a legal completion then */) res.fail("unexpected-error-code",nm + ": async_accept handler got error " + std::to_string(r.code) + "/" + r.cat + " - the listening socket was never in error; a connection that is gone by the time accept() is called (would-block) is not an event"); }
 			if(r.kind == "dev_awrite"){ if(r.code != 0 || r.n != r.want) res.fail("short-async-write",nm + ": async_write on a fresh device completed with code " + std::to_string(r.code) + " after " + std::to_string(r.n) + " of " + std::to_string(r.want) + " bytes"); }
 			if((r.kind == "dev_in2" || r.kind == "dev_out2") && r.code != 0) res.fail("unexpected-error-code",nm + " (wait on a fresh device whose event had happened) got error " + std::to_string(r.code) + "/" + r.cat);
 			if(r.kind == "dev_in" && r.code == 0 && r.want == 0) res.fail("io-success-without-event",nm + " reported readable but the peer never wrote");
+		}
+		for(auto &ch:chains){
+			if(ch->kind == "accept"){ res.counters["accept_chains"] = res.counters.geti("accept_chains") + 1; res.counters["connections_accepted"] = res.counters.geti("connections_accepted") + ch->got;
+				if(ch->got > ch->conns_made) res.fail("accepted-more-than-connected","the acceptor reported " + std::to_string(ch->got) + " accepted connections, " + std::to_string(ch->conns_made) + " peers connected");
+				int expect = std::min(ch->times_left + ch->got,ch->conns_made);
+				if(res.ok && !stop_race && !env_exhausted && ch->cancel_after < 0 && ch->got < expect) res.fail("pending-connection-never-accepted","an acceptor that was never cancelled accepted " + std::to_string(ch->got) + " of the " + std::to_string(ch->conns_made) + " connections made to it (it was willing to take " + std::to_string(ch->times_left + ch->got) + ")"); }
+			if(ch->kind == "connect" && ch->hid >= 0 && w.h[ch->hid].count){ HRec &r = w.h[ch->hid]; bool canceled = r.code == aio::aio_error::canceled && r.cat == aio::aio_error_cat.name(); res.counters["connect_chains"] = res.counters.geti("connect_chains") + 1; if(r.code == 0) res.counters["connects_ok"] = res.counters.geti("connects_ok") + 1;
+				if(r.code == 0 && ch->listen_mode == 0) res.fail("connect-success-without-listener","async_connect to an address nobody listens at completed successfully");
+				if(r.code != 0 && !canceled && !ch->closed && !(ch->listen_mode == 0 && r.code == ECONNREFUSED)) res.fail("unexpected-error-code","async_connect to " + std::string(ch->listen_mode ? "a listening" : "a dead") + " address got error " + std::to_string(r.code) + "/" + r.cat); }
 		}
 		for(auto &ch:chains){ if(ch->hid < 0) continue; HRec &r = w.h[ch->hid]; if(!r.count) continue;
 			if(ch->kind == "read"){
@@ -378,6 +444,7 @@ struct E6 : Engine {
 		simk::Params sp; sp.sched_seed = (uint64_t)plan.geti("sched_seed",1); sp.fault_seed = (uint64_t)plan.geti("fault_seed",1); sp.strategy = (int)(((plan.geti("strategy") % 3) + 3) % 3);
 		sp.pct_depth = (int)std::max<int64_t>(1,std::min<int64_t>(plan.geti("pct_depth",2),8)); sp.pct_len = (int)std::max<int64_t>(1,plan.geti("pct_len",500)); sp.tick_us = (int)std::max<int64_t>(1,std::min<int64_t>(plan.geti("tick_us",1),100000));
 		sp.p_eintr = (unsigned)std::max<int64_t>(0,std::min<int64_t>(plan.geti("p_eintr"),300)); sp.p_short_read = (unsigned)std::max<int64_t>(0,std::min<int64_t>(plan.geti("p_short_read"),1000)); sp.p_short_write = (unsigned)std::max<int64_t>(0,std::min<int64_t>(plan.geti("p_short_write"),1000)); sp.p_spurious = (unsigned)std::max<int64_t>(0,std::min<int64_t>(plan.geti("p_spurious"),300));
+		sp.p_connect_inprogress = (unsigned)std::max<int64_t>(0,std::min<int64_t>(plan.geti("p_inprogress"),1024));
 		sp.default_chan_cap = 3000; sp.max_steps = 3000000; sp.text_trace = plan.geti("text_trace");
 		const J &ta = plan.get("tape"); for(size_t i=0;i<ta.size();i++) sp.tape.push_back((uint32_t)ta.a[i].as_int());
 		simk::begin(sp);
@@ -388,6 +455,7 @@ struct E6 : Engine {
 		res.hash = simk::trace_hash();
 		simk::Stats &s = simk::stats();
 		res.counters["steps"] = (long long)s.steps; res.counters["switches"] = (long long)s.switches; res.counters["eintr"] = (long long)s.eintr; res.counters["short_reads"] = (long long)s.short_reads; res.counters["short_writes"] = (long long)s.short_writes;
+		res.counters["accept_would_block_after_readable"] = (long long)s.accept_spurious; res.counters["connects_in_progress"] = (long long)s.connect_inprogress;
 		res.counters["spurious_wakeups"] = (long long)s.spurious; res.counters["eagain"] = (long long)(s.eagain_r + s.eagain_w); res.counters["mutex_contended"] = (long long)s.mutex_contended; res.counters["cv_waits"] = (long long)s.cv_waits;
 		res.counters["sim_seconds"] = (long long)((simk::now_us() - sp.start_time_s*1000000LL)/1000000);
 		res.counters[std::string("strategy_") + (sp.strategy == 0 ? "random" : sp.strategy == 1 ? "pct" : "run_to_block")] = 1;
